@@ -5,10 +5,13 @@ package main
 // and the .DIR are compared byte for byte with their content before the step.
 
 import (
+	"bytes"
+	"encoding/binary"
 	"errors"
 	"os"
 	"path/filepath"
 	"strconv"
+	"time"
 
 	"github.com/Ptt-official-app/go-pttbbs/cache"
 	"github.com/Ptt-official-app/go-pttbbs/cmsys"
@@ -71,7 +74,13 @@ func c10Run(args [][]string) []string {
 	if op := ai(args[0][0]); op == 2 || op == 3 {
 		return c10RunBoard(args, op == 3) // c10board.go: several articles, several commenters, all comment-related board attributes
 	}
-	if ai(args[0][0]) != 1 || len(args) < 7 {
+	if ai(args[0][0]) == 5 {
+		return c10RunTwoBoards(args) // c10two.go: two boards holding the same article file name, comments back to back in one process
+	}
+	// op 4 = op 1 on an index whose addressed entry carries a given Modified stamp: group 7 is [rel v] - the stamp is
+	// v (rel = 0) or the driver's clock reading at planting time + v (rel = 1: "v seconds ahead of the clock")
+	op := ai(args[0][0])
+	if (op != 1 && op != 4) || len(args) < 7 {
 		return []string{"9"}
 	}
 	flags := args[1]
@@ -79,8 +88,23 @@ func c10Run(args [][]string) []string {
 		return []string{"9"}
 	}
 	dir, name, art, ip, uid := ab(args[2]), ab(args[3]), ab(args[4]), ab(args[5]), ab(args[6])
+	first := 7
+	stamp := int64(0)
+	if op == 4 {
+		if len(args) < 8 || len(args[7]) != 2 {
+			return []string{"9"}
+		}
+		stamp = ai(args[7][1])
+		if ai(args[7][0]) != 0 {
+			stamp += time.Now().Unix()
+		}
+		if stamp < -(1<<31) || stamp >= 1<<31 || !c10Stamp(dir, name, int32(stamp)) {
+			return []string{"9"}
+		}
+		first = 8
+	}
 	var steps [][]string
-	for _, g := range args[7:] {
+	for _, g := range args[first:] {
 		if len(g) == 1 && g[0] == "99" {
 			break // observations (for the model) follow
 		}
@@ -161,8 +185,33 @@ func c10Run(args [][]string) []string {
 		} else {
 			out = append(out, oi(int64(fhdr.Recommend)))
 		}
+		// the article file's own modification time, read by the driver after the step (not what Recommend returned)
+		out = append(out, oi(c10FileMtime(artPath)))
+	}
+	if op == 4 {
+		out = append(out, oi(stamp)) // the stamp that was planted (the check hands it to the model)
 	}
 	return out
+}
+
+// c10FileMtime: the modification time of the file in seconds as the file system has it (-1: no such file)
+func c10FileMtime(p string) int64 {
+	info, err := os.Stat(p)
+	if err != nil {
+		return -1
+	}
+	return info.ModTime().Unix()
+}
+
+// c10Stamp writes stamp into the Modified field (bytes 28..31, little endian) of the entry of dir that carries name
+func c10Stamp(dir []byte, name []byte, stamp int32) bool {
+	for e := 0; e+128 <= len(dir); e += 128 {
+		if len(name) >= 28 && bytes.Equal(dir[e:e+28], name[:28]) {
+			binary.LittleEndian.PutUint32(dir[e+28:e+32], uint32(stamp))
+			return true
+		}
+	}
+	return false
 }
 
 func init() {
@@ -173,6 +222,9 @@ func init() {
 			if b, err := cache.GetBCache(c10Bid); err == nil {
 				b.BrdAttr = c10OrigAttr
 				b.FastRecommendPause = c10OrigPause
+			}
+			if b, err := cache.GetBCache(c10Bid2); err == nil && c10Orig2Set {
+				b.BrdAttr = c10OrigAttr2
 			}
 			c10Env.close()
 		},
